@@ -936,3 +936,235 @@ Proof.
     inversion H; subst c. cbn [ctab]. apply wf_orient.
     apply (o2m_rows_wf _ _ _ _ _ _ _ _ (wf_orient a t W) E).
 Qed.
+
+(* ---------------------------------------------------------------- one-to-many: values *)
+Lemma nth_vadd a b y : length a = length b -> nth y (vadd a b) 0%Z = (nth y a 0 + nth y b 0)%Z.
+Proof.
+  unfold vadd. revert b y. induction a as [|x a IH]; intros [|z b] y H; simpl in *; try discriminate.
+  - destruct y; reflexivity.
+  - destruct y; [reflexivity|]. apply IH. lia.
+Qed.
+
+Lemma nth_scale w v y : nth y (map (Z.mul w) v) 0%Z = (w * nth y v 0)%Z.
+Proof. revert y. induction v as [|x v IH]; intros [|y]; simpl; try lia. apply IH. Qed.
+
+Definition cnt (order : list Z) (r : nat) (p : list (Tree * Z)) : nat :=
+  length (filter (fun pg => Nat.eqb (pos0 (snd pg) order) r) p).
+(* how many times a vector maps to group g *)
+Definition mult (g : Z) (p : list (Tree * Z)) : Z :=
+  Z.of_nat (length (filter (fun pg => Z.eqb (snd pg) g) p)).
+
+Lemma acc_step_get n c order w v rows pg r y :
+  shape n c rows -> length v = c -> pos0 (snd pg) order < n ->
+  get (acc_step order w v rows pg) r y =
+  (get rows r y + (if Nat.eqb (pos0 (snd pg) order) r then w * nth y v 0 else 0))%Z.
+Proof.
+  intros [S1 S2] Hv Hlt. unfold acc_step, get. cbv zeta. set (c0 := pos0 (snd pg) order) in *.
+  destruct (Nat.eqb c0 r) eqn:E.
+  - apply Nat.eqb_eq in E. subst r. rewrite nth_upd_eq by (rewrite S1; exact Hlt).
+    rewrite nth_vadd; [rewrite nth_scale; reflexivity|].
+    rewrite map_length, Hv. apply (rect_nth_length c rows c0 S2). rewrite S1. exact Hlt.
+  - apply Nat.eqb_neq in E. rewrite nth_upd_neq by exact E. lia.
+Qed.
+
+Lemma acc_one_get n c order w v p : forall rows r y,
+  shape n c rows -> length v = c -> Forall (fun pg => pos0 (snd pg) order < n) p ->
+  get (acc_one order w v p rows) r y = (get rows r y + Z.of_nat (cnt order r p) * (w * nth y v 0))%Z.
+Proof.
+  unfold acc_one, cnt. induction p as [|pg p IH]; intros rows r y S Hv Hf; simpl; [lia|].
+  pose proof (Forall_inv Hf) as H1. pose proof (Forall_inv_tail Hf) as H2. cbv beta in H1.
+  rewrite IH by (try apply acc_step_shape; assumption).
+  rewrite (acc_step_get n c) by assumption.
+  destruct (Nat.eqb (pos0 (snd pg) order) r); simpl length; lia.
+Qed.
+
+Lemma accumulate_get n c order k divide : forall vps rows r y,
+  shape n c rows ->
+  Forall (fun vp : list Z * list (Tree * Z) =>
+            length (fst vp) = c /\ Forall (fun pg => pos0 (snd pg) order < n) (snd vp)) vps ->
+  get (fold_left (fun rows (vp : list Z * list (Tree * Z)) =>
+                    acc_one order (o2m_weight k divide (snd vp)) (fst vp) (snd vp) rows) vps rows) r y =
+  (get rows r y +
+   zsum (map (fun vp : list Z * list (Tree * Z) =>
+                Z.of_nat (cnt order r (snd vp)) * (o2m_weight k divide (snd vp) * nth y (fst vp) 0)) vps))%Z.
+Proof.
+  induction vps as [|vp vps IH]; intros rows r y S Hf; simpl; [lia|].
+  pose proof (Forall_inv Hf) as [H1 H2]. pose proof (Forall_inv_tail Hf) as H3.
+  rewrite IH by (try apply acc_one_shape; assumption).
+  rewrite (acc_one_get n c) by assumption. lia.
+Qed.
+
+Lemma get_zero n c r y : get (repeat (zero_row c) n) r y = 0%Z.
+Proof.
+  unfold get. destruct (Nat.lt_ge_cases r n) as [H|H].
+  - rewrite (nth_indep _ [] (zero_row c)) by (rewrite repeat_length; exact H).
+    rewrite nth_repeat. unfold zero_row. apply nth_repeat.
+  - rewrite (nth_overflow (repeat (zero_row c) n)) by (rewrite repeat_length; exact H). destruct y; reflexivity.
+Qed.
+
+Lemma cnt_mult order g p :
+  NoDup order -> In g order -> (forall pg, In pg p -> In (snd pg) order) ->
+  Z.of_nat (cnt order (pos0 g order) p) = mult g p.
+Proof.
+  intros Hn Hg Hp. unfold cnt, mult. f_equal. f_equal. apply filter_ext_in. intros pg Hin.
+  specialize (Hp pg Hin). destruct (pos0_lt _ _ Hp) as [_ E1]. destruct (pos0_lt _ _ Hg) as [_ E2].
+  destruct (Z.eqb (snd pg) g) eqn:E.
+  - apply Z.eqb_eq in E. rewrite E. apply Nat.eqb_refl.
+  - apply Nat.eqb_neq. intros Heq. apply Z.eqb_neq in E. apply E. rewrite <- E1, <- E2, Heq. reflexivity.
+Qed.
+
+Lemma combine_map_l {A B C} (f : A -> B) (xs : list A) (ps : list C) :
+  combine (map f xs) ps = map (fun xp => (f (fst xp), snd xp)) (combine xs ps).
+Proof. revert ps. induction xs as [|x xs IH]; intros [|p ps]; simpl; try reflexivity. f_equal. apply IH. Qed.
+
+Lemma mat_as_rows o : wf o -> mat o = map (fun x => nth (pos0 x (oids o)) (mat o) []) (oids o).
+Proof.
+  intros (W1 & _ & W3 & _). set (F := fun x => nth (pos0 x (oids o)) (mat o) []).
+  apply (nth_ext _ _ [] (F 0%Z)); [rewrite map_length; exact W1|].
+  intros i Hi. rewrite W1 in Hi. rewrite (map_nth F). unfold F. rewrite pos0_nth by assumption. reflexivity.
+Qed.
+
+Lemma new_md_groups paths g :
+  In g (isort (map fst (new_md_of paths))) <-> exists p pw, In p paths /\ In (pw, g) p.
+Proof.
+  rewrite isort_In. destruct (new_md_spec paths [] (NoDup_nil _)) as [_ B]. cbv zeta in B.
+  unfold new_md_of. fold (dkeys (fold_left (fun d p => fold_left (fun d pg => dset d (snd pg) (fst pg)) p d) paths [])).
+  rewrite B. simpl. tauto.
+Qed.
+
+Definition o2m_k (divide : bool) (paths : list (list (Tree * Z))) : Z :=
+  if divide then lcm_counts paths else 1%Z.
+
+(* rows: the value for (group g, other-axis id y) *)
+Lemma o2m_rows_cell o paths raises strict divide incl key c g y :
+  wf o -> o2m_rows o paths raises strict divide incl key = ROk c ->
+  In g (oids (ctab c)) -> In y (sids o) ->
+  cell (ctab c) g y =
+  Some (zsum (map (fun xp => mult g (snd xp) * (o2m_weight (o2m_k divide paths) divide (snd xp) * cell0 o (fst xp) y))
+                  (combine (oids o) paths)))%Z.
+Proof.
+  intros W H Hg Hy. destruct (o2m_rows_inv _ _ _ _ _ _ _ _ H) as (_ & _ & ->). cbv zeta in *. cbn [ctab oids] in Hg.
+  pose proof W as (W1 & W2 & W3 & W4 & W5 & W6).
+  set (order := isort (map fst (new_md_of paths))) in *. fold (o2m_k divide paths).
+  set (k := o2m_k divide paths).
+  assert (Hno : NoDup order) by (apply isort_NoDup, new_md_keys_NoDup).
+  destruct (pos_In _ _ Hg) as [r Hr]. destruct (pos_In _ _ Hy) as [j Hj].
+  assert (Er : r = pos0 g order) by (unfold pos0; rewrite Hr; reflexivity).
+  unfold cell. cbn [ctab oids sids mat]. rewrite Hr, Hj. f_equal.
+  rewrite o2m_accumulate_eq.
+  assert (Hf : Forall (fun vp : list Z * list (Tree * Z) =>
+                         length (fst vp) = nsamp o /\
+                         Forall (fun pg => pos0 (snd pg) order < length order) (snd vp)) (combine (mat o) paths)).
+  { apply Forall_forall. intros [v p] Hvp. simpl. split.
+    - apply in_combine_l in Hvp. unfold rect in W2. rewrite Forall_forall in W2. apply W2. exact Hvp.
+    - apply in_combine_r in Hvp. apply Forall_forall. intros [pw g'] Hpg. simpl.
+      apply pos0_lt. apply new_md_groups. exists p, pw. split; assumption. }
+  rewrite (accumulate_get (length order) (nsamp o)) by (try apply zero_shape; exact Hf).
+  rewrite get_zero, Z.add_0_l.
+  rewrite (mat_as_rows o W) at 1. rewrite combine_map_l, map_map. f_equal.
+  apply map_ext_in. intros [x p] Hxp. cbn [fst snd].
+  assert (In x (oids o)) as Hx by (eapply in_combine_l; exact Hxp).
+  assert (In p paths) as Hp by (eapply in_combine_r; exact Hxp).
+  rewrite Er. rewrite cnt_mult; [|exact Hno|exact Hg|].
+  2:{ intros [pw g'] Hpg. simpl. apply new_md_groups. exists p, pw. split; assumption. }
+  f_equal. f_equal. unfold cell0, cell. destruct (pos_In _ _ Hx) as [i Hi]. unfold pos0. rewrite Hi, Hj. reflexivity.
+Qed.
+
+(* the lcm of the group counts is positive and divisible by every non-zero count *)
+Lemma lcm_counts_pos paths : (0 < lcm_counts paths)%Z.
+Proof.
+  induction paths as [|p paths IH]; simpl; [lia|]. destruct p as [|pg p]; [exact IH|].
+  set (d := Z.of_nat (length (pg :: p))). assert (0 < d)%Z by (unfold d; simpl length; lia).
+  pose proof (Z.lcm_nonneg d (lcm_counts paths)).
+  assert (Z.lcm d (lcm_counts paths) <> 0)%Z; [|lia].
+  intros E. apply Z.lcm_eq_0 in E. lia.
+Qed.
+
+Lemma lcm_counts_div paths p :
+  In p paths -> p <> [] -> (Z.of_nat (length p) | lcm_counts paths)%Z.
+Proof.
+  induction paths as [|q paths IH]; simpl; intros Hin Hne; [contradiction|].
+  destruct Hin as [->|Hin].
+  - destruct p as [|pg p]; [contradiction|]. apply Z.divide_lcm_l.
+  - destruct q as [|qg q]; [apply IH; assumption|].
+    eapply Z.divide_trans; [apply IH; assumption|apply Z.divide_lcm_r].
+Qed.
+
+Lemma divide_weight paths p :
+  In p paths -> p <> [] ->
+  (Z.of_nat (length p) * (lcm_counts paths / Z.of_nat (length p)) = lcm_counts paths)%Z.
+Proof.
+  intros Hin Hne. destruct (lcm_counts_div paths p Hin Hne) as [q Hq].
+  assert (Z.of_nat (length p) <> 0)%Z by (destruct p; [contradiction|simpl length; lia]).
+  rewrite Hq. rewrite Z.div_mul by assumption. lia.
+Qed.
+
+Lemma zsum_indicator (x : Z) l :
+  NoDup l -> In x l -> zsum (map (fun g => if Z.eqb x g then 1 else 0)%Z l) = 1%Z.
+Proof.
+  induction l as [|y l IH]; simpl; intros Hn Hi; [contradiction|].
+  inversion Hn as [|? ? Hy Hn']; subst. destruct (Z.eqb x y) eqn:E.
+  - apply Z.eqb_eq in E. subst y.
+    assert (zsum (map (fun g => if Z.eqb x g then 1 else 0)%Z l) = 0%Z) as ->; [|lia].
+    clear -Hy. induction l as [|z l IH]; simpl; [reflexivity|].
+    destruct (Z.eqb x z) eqn:E; [apply Z.eqb_eq in E; subst; exfalso; apply Hy; left; reflexivity|].
+    rewrite IH; [reflexivity|]. intros H. apply Hy. right. exact H.
+  - destruct Hi as [Hi|Hi]; [subst; rewrite Z.eqb_refl in E; discriminate|]. rewrite IH by assumption. lia.
+Qed.
+
+Lemma mult_total order p :
+  NoDup order -> (forall pg, In pg p -> In (snd pg) order) ->
+  zsum (map (fun g => mult g p) order) = Z.of_nat (length p).
+Proof.
+  intros Hn. unfold mult. induction p as [|pg p IH]; intros Hp; simpl.
+  - clear. induction order as [|g order IH]; simpl; [reflexivity|exact IH].
+  - transitivity (zsum (map (fun g => (if Z.eqb (snd pg) g then 1 else 0) +
+                                      Z.of_nat (length (filter (fun pg0 : Tree * Z => Z.eqb (snd pg0) g) p)))%Z order)).
+    + f_equal. apply map_ext. intros g. destruct (Z.eqb (snd pg) g); simpl length; lia.
+    + rewrite (zsum_map_add (fun g => if Z.eqb (snd pg) g then 1 else 0)%Z).
+      rewrite zsum_indicator by (try assumption; apply Hp; left; reflexivity).
+      rewrite IH by (intros pg' H; apply Hp; right; exact H). lia.
+Qed.
+
+Lemma zsum_swap {A B} (f : A -> B -> Z) (xs : list A) (ys : list B) :
+  zsum (map (fun x => zsum (map (fun y => f x y) ys)) xs) =
+  zsum (map (fun y => zsum (map (fun x => f x y) xs)) ys).
+Proof.
+  induction xs as [|x xs IH]; simpl.
+  - induction ys as [|y ys IHy]; simpl; [reflexivity|]. rewrite <- IHy. reflexivity.
+  - rewrite IH. rewrite <- (zsum_map_add (fun y => f x y) (fun y => zsum (map (fun x0 => f x0 y) xs))). reflexivity.
+Qed.
+
+Lemma zsum_scale (k : Z) {A} (f : A -> Z) l : zsum (map (fun x => k * f x)%Z l) = (k * zsum (map f l))%Z.
+Proof. induction l as [|x l IH]; simpl; [lia|]. rewrite IH. lia. Qed.
+
+(* rows: 'divide' conserves every other-axis total (scaled by the common denominator) *)
+Lemma o2m_rows_conserves o paths raises strict incl key c y :
+  wf o -> length paths = nobs o -> o2m_rows o paths raises strict true incl key = ROk c ->
+  (forall p, In p paths -> p <> []) -> In y (sids o) ->
+  zsum (map (fun g => cell0 (ctab c) g y) (oids (ctab c))) =
+  (lcm_counts paths * zsum (map (fun x => cell0 o x y) (oids o)))%Z.
+Proof.
+  intros W Hl H Hne Hy.
+  assert (E : forall g, In g (oids (ctab c)) ->
+            cell0 (ctab c) g y =
+            zsum (map (fun xp => mult g (snd xp) * (o2m_weight (lcm_counts paths) true (snd xp) * cell0 o (fst xp) y))%Z
+                      (combine (oids o) paths))).
+  { intros g Hg. unfold cell0 at 1. rewrite (o2m_rows_cell _ _ _ _ _ _ _ _ g y W H Hg Hy). reflexivity. }
+  rewrite (map_ext_in _ _ _ E). clear E.
+  destruct (o2m_rows_inv _ _ _ _ _ _ _ _ H) as (_ & _ & ->). cbv zeta. cbn [ctab oids].
+  set (order := isort (map fst (new_md_of paths))).
+  rewrite (zsum_swap (fun g xp => mult g (snd xp) * (o2m_weight (lcm_counts paths) true (snd xp) * cell0 o (fst xp) y))%Z).
+  assert (Hno : NoDup order) by (apply isort_NoDup, new_md_keys_NoDup).
+  transitivity (zsum (map (fun xp : Z * list (Tree * Z) => lcm_counts paths * cell0 o (fst xp) y)%Z (combine (oids o) paths))).
+  - f_equal. apply map_ext_in. intros [x p] Hxp. cbn [fst snd].
+    assert (In p paths) as Hp by (eapply in_combine_r; exact Hxp).
+    set (X := cell0 o x y). set (w := o2m_weight (lcm_counts paths) true p).
+    transitivity (zsum (map (fun g => mult g p) order) * (w * X))%Z.
+    + clear. induction order as [|g order IH]; simpl; [reflexivity|]. rewrite IH. lia.
+    + rewrite mult_total; [|exact Hno|].
+      2:{ intros [pw g'] Hpg. simpl. apply new_md_groups. exists p, pw. split; assumption. }
+      unfold w, o2m_weight. rewrite Z.mul_assoc. rewrite divide_weight by (try apply Hne; assumption). reflexivity.
+  - rewrite (zsum_scale (lcm_counts paths) (fun xp : Z * list (Tree * Z) => cell0 o (fst xp) y)). f_equal.
+    rewrite <- (map_map fst (fun x => cell0 o x y)). rewrite map_fst_combine by (rewrite Hl; reflexivity). reflexivity.
+Qed.
